@@ -7,20 +7,29 @@ import tour
 
 
 def parse_races(out, repo, harness_dir):
-    """Split the race detector's report into races; classify each by where its two access stacks are."""
+    """Split the race detector's report into races; attribute each access to the innermost frame that is not in the Go
+    runtime / standard library: library (a file of the repository) or harness."""
     races = []
+    rp = repo.rstrip("/") + "/"
     for blk in re.split(r"={18}\n", out):
         if "WARNING: DATA RACE" not in blk:
             continue
-        files = re.findall(r"^\s+(/\S+\.go):(\d+)", blk, re.M)
-        # the two accesses: first frame of the first two stacks
         stacks = re.split(r"\n\n", blk)
         tops = []
         for st in stacks[:2]:
-            m = re.search(r"^\s+(\S+)\(\)\n\s+(/\S+\.go):(\d+)", st, re.M)
-            if m:
-                tops.append((m.group(1), m.group(2), int(m.group(3))))
-        lib = [t for t in tops if t[1].startswith(repo.rstrip("/") + "/")]
+            top = None
+            for m in re.finditer(r"^\s+(\S+)\(\)\n\s+(/\S+\.go):(\d+)", st, re.M):
+                fn, fl, ln = m.group(1), m.group(2), int(m.group(3))
+                if fl.startswith(rp) or fl.startswith(harness_dir.rstrip("/") + "/") or "/harness/" in fl:
+                    top = (fn, fl, ln)
+                    break
+            if top is None:
+                m = re.search(r"^\s+(\S+)\(\)\n\s+(/\S+\.go):(\d+)", st, re.M)
+                if m:
+                    top = (m.group(1), m.group(2), int(m.group(3)))
+            if top:
+                tops.append(top)
+        lib = [t for t in tops if t[1].startswith(rp)]
         races.append({"tops": tops, "library_both": len(lib) == 2 and len(tops) == 2, "library_any": bool(lib), "text": blk[:3000]})
     return races
 
